@@ -221,6 +221,16 @@ func (s *serializer) structBody(v reflect.Value) {
 			continue
 		}
 		s.w("%s:", f.Name)
+		if f.Name == "Typ" && v.CanAddr() && v.FieldByName("AddrSpace").IsValid() {
+			// Typ of a global, function or alloca is a cache of the pointer type the
+			// value has; what counts is the type it reports (the address space may have
+			// been set after the cache was filled)
+			if tv, ok := v.Addr().Interface().(interface{ Type() types.Type }); ok {
+				s.value(reflect.ValueOf(tv.Type()))
+				s.w(" ")
+				continue
+			}
+		}
 		s.value(fv)
 		s.w(" ")
 	}
